@@ -6,6 +6,9 @@ import YaqsModel.Lemmas.MpoConv
 import YaqsModel.Lemmas.TrotterLimit
 import YaqsModel.Lemmas.TrotterMatrix
 import YaqsModel.Lemmas.TrotterPauli
+import YaqsModel.Lemmas.TrotterKron
+import YaqsModel.Lemmas.TrotterHubbardGates
+import YaqsModel.Lemmas.TrotterHubbard
 
 /-!
 # C07 — model library: MPO builders equal their definition; Trotter circuits match them
@@ -1337,5 +1340,276 @@ theorem heisenberg_circuit_mpo_same_hamiltonian (L : Nat) (per : Bool) (Jx Jy Jz
 example : parseTerms 2 ((isingTerms 2 false 1 (1 / 2)).map fun t => (GRat.ofRat t.1, t.2)) =
     some [(⟨-1, 0⟩, [.Z, .Z]), (⟨-1/2, 0⟩, [.X, .I]), (⟨-1/2, 0⟩, [.I, .X])] := by decide +kernel
 example : cfg 3 5 0 = 1 ∧ cfg 3 5 1 = 0 ∧ cfg 3 5 2 = 1 ∧ Yaqs.Index.unflat [2, 2, 2] 5 = [1, 0, 1] := by decide
+
+end Yaqs.Trotter
+
+/-!
+# C07, extension xh07 — the Fermi–Hubbard circuits at the level of the spin builders
+(models `Model/TrotterHubbard.lean`, `Lemmas/TrotterKron.lean`, `TrotterHubbardGates.lean`, `TrotterHubbard.lean`)
+
+What the xt07 section above left "measured only": `create_1d_fermi_hubbard_circuit` / `create_2d_fermi_hubbard_circuit` contain
+`p`, `cp`, `cx` and `±π/2` basis-change gates, which are not Pauli rotations of `gateGen`.  Now every gate of those circuits has a
+dense `2^L × 2^L` matrix (`gateMat`: qiskit's matrices for `p`, `cp`, `cx`, `ry/rx(±π/2)` written as Kronecker products, site 0 the
+leftmost factor; `exp(-iθ/2·P)` for the Pauli rotations as before), a gate list has the product `circMat` (list order; the
+operator order is the reversed list), and:
+
+* `kronecker_pauli_strings`     the Pauli strings of `pauliMat` are Kronecker products, multiplicative site by site
+* `p_gate_generators`, `cp_gate_generators`   `p(θ) = exp(-i c(1 - Z))`, `cp(θ) = exp(-i c(1 - Z)(1 - Z))` as products of the
+  exponentials of their Pauli generators, `c = -θ/2`, `-θ/4` (`phaseCoeff`, `cphaseCoeff` of `angle_sign_hubbard`)
+* `cnot_conjugates_z`, `cnot_ladder_conjugation`, `hopping_block_unitary`   the CNOT-ladder block of `lri_closed_form` has the
+  unitary `exp(-i α/2 · P_i Z_{i+1}⋯Z_{j-1} P_j)` for EVERY distance `j - i ≥ 1`, in list order and in operator order; the block of
+  `add_hopping_term` is the product of the `X` and the `Y` one
+* `hubbard_bonds_cover`         the hopping loops visit every nearest-neighbour bond of the chain / lattice exactly once
+* `hubbard1d_step_generators`, `hubbard2d_step_generators`   one sub-step is, in circuit order, the palindromic arrangement
+  `½ chem, ½ onsite, hop, ½ onsite, ½ chem` at step `dt/n` of the Pauli terms of the documented Hamiltonian, and its gate list
+  multiplies to the product of their exponentials
+* `jordan_wigner_image`, `hubbard_hamiltonian_is_jordan_wigner`   those Pauli terms are the Jordan–Wigner image (`c_q = Z_0⋯Z_{q-1}σ⁻_q`,
+  which satisfy the canonical anticommutation relations) of `H = -t Σ(c†c + h.c.) + U Σ n↑n↓ - μ Σ n` in the qubit order of each
+  builder (`↑[j] = j, ↓[j] = L + j` resp. `lookup_qiskit_ordering`)
+* `hubbard1d_step_consistent`, `hubbard2d_step_consistent`   `d/dτ` of the sub-step unitary at `τ = dt/n = 0` is `-i·H_JW`
+* `hubbard1d_trotter_converges`, `hubbard2d_trotter_converges`   the circuit with `n` Trotter sub-steps per step is within
+  `T²s²e^{|T|s}/(n·timesteps)` of `exp(-i T H_JW)`, `T = timesteps·dt`, and converges to it as `n → ∞`
+* `second_order_arrangement`, `merged_table_same_operator`   bookkeeping of the half steps; the merged tables of the tie.
+
+Still outside a theorem: that qiskit's gates are the matrices of `gateMat` (spec-tied on every run, kind `gatespec` and the
+`hubbard-*` kinds of `harness/impl/C07.py`), and the second-order accuracy of the palindromic arrangement (the bound proved is the
+first-order one; the measured order is recorded by the `trotter-*` oracles).
+-/
+namespace Yaqs.Trotter
+
+open Matrix NormedSpace Filter Topology Yaqs.TrotterLimit
+
+/-- **C07 (Pauli strings are Kronecker products)** `pauliMat L ops` is `P₀ ⊗ P₁ ⊗ ⋯` with entries `Π_k P_k[i_k, j_k]` over the binary
+    digits of the row / column index (site 0 most significant, `index_digits`); Kronecker products multiply site by site and the
+    product of identities is the identity — the calculus in which all gate identities below are proved. -/
+theorem kronecker_pauli_strings (L : Nat) (ops : List Op) (hl : ops.length = L) (f g : Fin L → Matrix (Fin 2) (Fin 2) ℂ) :
+    pauliMat L ops = kronFn L (fun k => pauliM (ops.getD k.val Op.I)) ∧
+    (∀ i j : Fin (2 ^ L), kronFn L f i j = ∏ k, f k (dig L i k) (dig L j k)) ∧
+    (∀ (i : Fin (2 ^ L)) (k : Fin L), (dig L i k).val = cfg L i.val k.val) ∧
+    kronFn L f * kronFn L g = kronFn L (fun k => f k * g k) ∧ kronFn L (fun _ => 1) = 1 :=
+  ⟨pauliMat_eq_kronFn L ops hl, fun _ _ => rfl, fun _ _ => rfl, kronFn_mul L f g, kronFn_one L⟩
+
+example : strOf 3 (fun k => if k = 1 then Op.Z else Op.I) = [.I, .Z, .I] ∧ zString 3 [0, 2] = [.Z, .I, .Z] ∧
+    hopString 5 1 4 .X = [.I, .X, .Z, .Z, .X] := by decide
+
+/-- **C07 (`p(θ)`, wanted item 1)** the phase gate on qubit `q` — qiskit's `diag(1, e^{iθ})` on site `q`, identities elsewhere — is
+    `exp(-i c·𝟙) · exp(-i (-c)·Z_q)` with `c = -θ/2 = phaseCoeff θ`, i.e. `exp(-i c (𝟙 - Z_q))`: a global phase times a `Z` rotation,
+    the product of the exponentials of the two generators `gateGens` gives it.  Every `L`, `q`, rational `θ`. -/
+theorem p_gate_generators (L q : Nat) (θ : Rat) :
+    gateMat L (g1 .p q θ) = site1 L q (phase2 ((θ : ℚ) : ℝ)) ∧
+    gateGens L (g1 .p q θ) = [(zString L [], phaseCoeff θ), (zString L [q], -phaseCoeff θ)] ∧
+    gateMat L (g1 .p q θ) = stepUnitary L (gateGens L (g1 .p q θ)) :=
+  ⟨rfl, rfl, p_gate_eq L q θ⟩
+
+/-- **C07 (`cp(θ)`, wanted item 1)** the controlled phase on qubits `a ≠ b` — `|0⟩⟨0|_a ⊗ 𝟙 + |1⟩⟨1|_a ⊗ diag(1, e^{iθ})_b` — is the product of
+    the exponentials of its four commuting generators `(𝟙, c), (Z_a, -c), (Z_b, -c), (Z_a Z_b, c)`, `c = -θ/4 = cphaseCoeff θ`, i.e.
+    `exp(-i c (𝟙 - Z_a)(𝟙 - Z_b))`; any two sites of the register (the builders use `(j, L + j)` resp. `(2p, 2p + 1)`). -/
+theorem cp_gate_generators (L a b : Nat) (θ : Rat) (ha : a < L) (hb : b < L) (hab : a ≠ b) :
+    gateMat L (g2 .cp a b θ) = cpMat L a b ((θ : ℚ) : ℝ) ∧
+    gateGens L (g2 .cp a b θ) = [(zString L [], cphaseCoeff θ), (zString L [a], -cphaseCoeff θ),
+      (zString L [b], -cphaseCoeff θ), (zString L [a, b], cphaseCoeff θ)] ∧
+    gateMat L (g2 .cp a b θ) = stepUnitary L (gateGens L (g2 .cp a b θ)) :=
+  ⟨rfl, rfl, cp_gate_eq L a b θ ha hb hab⟩
+
+example : gateGens 2 (g1 .p 1 (1/3)) = [([.I, .I], -1/6), ([.I, .Z], 1/6)] ∧
+    gateGens 2 (g2 .cp 0 1 (1/2)) = [([.I, .I], -1/8), ([.Z, .I], 1/8), ([.I, .Z], 1/8), ([.Z, .Z], -1/8)] := by
+  decide +kernel
+
+/-- **C07 (inductive step of the ladder)** `CX_{k,j} = |0⟩⟨0|_k ⊗ 𝟙 + |1⟩⟨1|_k ⊗ X_j` is an involution, and conjugating a Pauli string
+    that has `I` on the control `k` and `Z` on the target `j` puts a `Z` on `k`: `CX_{k,j} · S · CX_{k,j} = Z_k · S`. -/
+theorem cnot_conjugates_z (L k j : Nat) (s : Nat → Op) (hk : k < L) (hj : j < L) (hkj : k ≠ j) (hsk : s k = Op.I)
+    (hsj : s j = Op.Z) :
+    gateMat L (cx k j) = cxMat L k j ∧ cxMat L k j * cxMat L k j = 1 ∧
+    cxMat L k j * pauliMat L (strOf L s) * cxMat L k j = pauliMat L (strOf L (Function.update s k Op.Z)) := by
+  refine ⟨rfl, cx_mul_self L k j hk hkj, ?_⟩
+  rw [pauliMat_strOf', pauliMat_strOf']
+  exact cx_conj_string L k j s hk hj hkj hsk hsj
+
+/-- **C07 (`cnot_ladder_conjugation`, wanted item 2 — every distance)** for all `i < j < L`, `P ∈ {X, Y}` and every rational `α`, the gate
+    list `add_long_range_interaction(∅, i, j, P, α)` builds (`lri_closed_form`: basis change `ry(π/2)` resp. `rx(π/2)` on `i` and `j`,
+    CNOT ladder `cx(k, j)` for `k = j-1 … i`, `rz_j(α)`, ladder back, basis change back) has the unitary
+    `exp(-i (α/2) · P_i Z_{i+1} ⋯ Z_{j-1} P_j)` as a `2^L × 2^L` matrix — multiplied in list order and in operator order (reversed
+    list).  Induction on the ladder with `cnot_conjugates_z` and `exp(V A V⁻¹) = V exp(A) V⁻¹`. -/
+theorem cnot_ladder_conjugation (L i j : Nat) (isX : Bool) (α : Rat) (hij : i < j) (hj : j < L) :
+    ∃ gs, addLongRange [] i j (some isX) α = .ok gs ∧
+      circMat L gs = exp (genMat L (hopString L i j (if isX then Op.X else Op.Y), rotCoeff α)) ∧
+      circMat L gs.reverse = exp (genMat L (hopString L i j (if isX then Op.X else Op.Y), rotCoeff α)) :=
+  ⟨lriList i j isX α, addLongRange_lriList i j isX α hij, (lri_block_unitary L i j isX α hij hj).1,
+    (lri_block_unitary L i j isX α hij hj).2⟩
+
+example : addLongRange [] 0 3 (some false) (1/5) = .ok (lriList 0 3 false (1/5)) ∧
+    (lriList 0 3 false (1/5)).length = 11 ∧ hopString 4 0 3 .Y = [.Y, .Z, .Z, .Y] := by decide +kernel
+
+/-- **C07 (hopping block)** `add_hopping_term(circ, i, j, α)` with `i < j < L` appends a gate list whose unitary is
+    `exp(-i α/2 · X_i Z⋯Z X_j) · exp(-i α/2 · Y_i Z⋯Z Y_j)` (the two factors commute; in operator order they appear exchanged) -/
+theorem hopping_block_unitary (L i j : Nat) (α : Rat) (hij : i < j) (hj : j < L) :
+    hopGens L i j α = [(hopString L i j .X, rotCoeff α), (hopString L i j .Y, rotCoeff α)] ∧
+    circMat L (hopGates i j α) = stepUnitary L (hopGens L i j α) ∧
+    circMat L (hopGates i j α).reverse = stepUnitary L (hopGens L i j α).reverse :=
+  ⟨rfl, (hop_block L i j α hij hj).1, (hop_block L i j α hij hj).2⟩
+
+/-- **C07 (the hopping loops cover the lattice)** the bond list of the 1-D builder is a rearrangement of `(j, j+1)`, `j < L - 1`, and
+    that of the 2-D builder (horizontal_odd, horizontal_even, vertical_odd, vertical_even) of all nearest-neighbour bonds
+    `(p, p+1)`, `(p, p+Lx)` of the `Lx × Ly` lattice, each exactly once; every bond has `p₁ < p₂ < Lx·Ly`. -/
+theorem hubbard_bonds_cover (L Lx Ly : Nat) :
+    (fh1dBonds L).Perm ((List.range (L - 1)).map fun j => (j, j + 1)) ∧
+    (fh2dBonds Lx Ly).Perm (latticeBonds Lx Ly) ∧
+    (∀ b ∈ fh1dBonds L, b.2 = b.1 + 1 ∧ b.2 < L) ∧ (∀ b ∈ fh2dBonds Lx Ly, b.1 < b.2 ∧ b.2 < Lx * Ly) :=
+  ⟨fh1d_bonds_perm L, fh2d_bonds_perm Lx Ly, mem_fh1dBonds L, mem_fh2dBonds Lx Ly⟩
+
+example : fh2dBonds 2 2 = [(0, 1), (2, 3), (0, 2), (1, 3)] ∧ latticeBonds 2 2 = [(0, 1), (2, 3), (0, 2), (1, 3)] ∧
+    fh2dBonds 3 2 = [(0, 1), (3, 4), (1, 2), (4, 5), (0, 3), (1, 4), (2, 5)] := by decide +kernel
+
+/-- **C07 (`hubbard1d_step_generators`, wanted item 3)** one sub-step of `create_1d_fermi_hubbard_circuit(L, u, t, μ, n, dt, ·)`, `n ≠ 0`:
+    its gate list multiplies to the product of the exponentials of `fh1dGens`, and `fh1dGens` is — exactly, in circuit order — the
+    palindromic arrangement `½ chem, ½ onsite, hop, ½ onsite, ½ chem` at step `dt/n` (half steps carry `dt/(2n)`, the hopping layer the
+    full `dt/n`: `hubbard_time_bookkeeping`) of the Pauli terms of `-μ Σ n_q`, `u Σ n_{j↑} n_{j↓}`, `-t Σ (c†c + h.c.)` with
+    `n ↦ (𝟙 - Z)/2`, hopping `↦ ½(XX + YY)` on neighbouring qubits, in the layout `↑[j] = j`, `↓[j] = L + j`. -/
+theorem hubbard1d_step_generators (L : Nat) (u t mu dt : Rat) (n : Nat) (hn : n ≠ 0) :
+    circMat (2 * L) (fh1dSubstep L u t mu dt n) = stepUnitary (2 * L) (fh1dGens L u t mu dt n) ∧
+    fh1dGens L u t mu dt n =
+      secondOrderGens (chemTerms (2 * L) (fun j => j) (fun j => L + j) (List.range L) mu)
+        (onsiteTerms (2 * L) (fun j => j) (fun j => L + j) (List.range L) u)
+        (hopTerms (2 * L) (fun j => j) (fun j => L + j) (fh1dBonds L) t) (dt / n) ∧
+    hubbard1dTerms L u t mu =
+      chemTerms (2 * L) (fun j => j) (fun j => L + j) (List.range L) mu
+        ++ onsiteTerms (2 * L) (fun j => j) (fun j => L + j) (List.range L) u
+        ++ hopTerms (2 * L) (fun j => j) (fun j => L + j) (fh1dBonds L) t :=
+  ⟨fh1d_substep_matrix L u t mu dt n, fh1dGens_structure L u t mu dt n hn, rfl⟩
+
+/-- **C07 (`hubbard2d_step_generators`, wanted item 3)** the same for `create_2d_fermi_hubbard_circuit(Lx, Ly, …)`: layout
+    `lookup_qiskit_ordering` (`↑[p] = 2p`, `↓[p] = 2p + 1`), hopping along `fh2dBonds` through the blocks of `hopping_block_unitary`,
+    whose Jordan–Wigner strings run over all qubits between `2p₁ + s` and `2p₂ + s`. -/
+theorem hubbard2d_step_generators (Lx Ly : Nat) (u t mu dt : Rat) (n : Nat) (hn : n ≠ 0) :
+    circMat (2 * (Lx * Ly)) (fh2dSubstep Lx Ly u t mu dt n) = stepUnitary (2 * (Lx * Ly)) (fh2dGens Lx Ly u t mu dt n) ∧
+    fh2dGens Lx Ly u t mu dt n =
+      secondOrderGens (chemTerms (2 * (Lx * Ly)) (fun p => 2 * p) (fun p => 2 * p + 1) (List.range (Lx * Ly)) mu)
+        (onsiteTerms (2 * (Lx * Ly)) (fun p => 2 * p) (fun p => 2 * p + 1) (List.range (Lx * Ly)) u)
+        (hopTerms (2 * (Lx * Ly)) (fun p => 2 * p) (fun p => 2 * p + 1) (fh2dBonds Lx Ly) t) (dt / n) ∧
+    hubbard2dTerms Lx Ly u t mu =
+      chemTerms (2 * (Lx * Ly)) (fun p => 2 * p) (fun p => 2 * p + 1) (List.range (Lx * Ly)) mu
+        ++ onsiteTerms (2 * (Lx * Ly)) (fun p => 2 * p) (fun p => 2 * p + 1) (List.range (Lx * Ly)) u
+        ++ hopTerms (2 * (Lx * Ly)) (fun p => 2 * p) (fun p => 2 * p + 1) (fh2dBonds Lx Ly) t :=
+  ⟨fh2d_substep_matrix Lx Ly u t mu dt n, fh2dGens_structure Lx Ly u t mu dt n hn, rfl⟩
+
+example : mergeGens (fh1dGens 1 (1/2) 1 (1/3) (1/10) 1) =
+    [([.I, .I], -1/48), ([.Z, .I], 1/240), ([.I, .Z], 1/240), ([.Z, .Z], 1/80)] ∧
+    (fh1dGens 2 (1/2) 1 (1/3) (1/10) 1).length = 36 ∧ (fh2dGens 2 1 (1/2) 1 (1/3) (1/10) 1).length = 36 := by decide +kernel
+
+/-- **C07 (the palindromic arrangement is linear in the step and sums to all terms once)** the two half steps `½A, ½B` on either side
+    of `C` add up: the generators at step `τ` are `τ ·` those at step 1, and the latter sum to `Σ(A ++ B ++ C)` — the careful point of
+    the second-order structure (`angle_sign_hubbard`: factors ½ of the half steps). -/
+theorem second_order_arrangement (L : Nat) (A B C : List (List Op × Rat)) (τ : Rat) :
+    secondOrderGens A B C τ = A.map (scaleGen (τ / 2)) ++ B.map (scaleGen (τ / 2)) ++ C.map (scaleGen τ)
+      ++ B.map (scaleGen (τ / 2)) ++ A.map (scaleGen (τ / 2)) ∧
+    secondOrderGens A B C τ = (secondOrderGens A B C 1).map (scaleGen τ) ∧
+    genSum L (secondOrderGens A B C 1) = (-Complex.I) • hamOfGens L (A ++ B ++ C) :=
+  ⟨rfl, secondOrderGens_scale A B C τ, (genSum_secondOrder L A B C).trans (genSum_eq_ham L _)⟩
+
+/-- **C07 (Jordan–Wigner image, wanted item 3)** with `c_q = Z_0 ⋯ Z_{q-1} σ⁻_q` on `N` qubits (`σ⁻ = |0⟩⟨1|`): the `c_q` are fermionic modes
+    (`{c_p, c†_q} = δ_pq`, `{c_p, c_q} = 0`), `c†_q c_q = (𝟙 - Z_q)/2`, and for `a < b`
+    `c†_a c_b + c†_b c_a = ½ (X_a Z_{a+1} ⋯ Z_{b-1} X_b + Y_a Z ⋯ Z Y_b)`. -/
+theorem jordan_wigner_image (N p q : Nat) (hp : p < N) (hq : q < N) :
+    (cF N p * (cF N q)ᴴ + (cF N q)ᴴ * cF N p = if p = q then 1 else 0) ∧ cF N p * cF N q + cF N q * cF N p = 0 ∧
+    numF N q = (1 / 2 : ℂ) • (1 - pauliMat N (zString N [q])) ∧
+    (p < q → hopF N p q = (1 / 2 : ℂ) • (pauliMat N (hopString N p q Op.X) + pauliMat N (hopString N p q Op.Y))) :=
+  ⟨(jw_car N p q hp hq).1, (jw_car N p q hp hq).2, jw_number N q hq, fun h => jw_hopping N p q h hq⟩
+
+/-- **C07 (the documented Hamiltonian is the Jordan–Wigner image of the Fermi–Hubbard model)** the Pauli term lists `hubbard1dTerms`,
+    `hubbard2dTerms` — `-½μ(𝟙 - Z)`, `¼u(𝟙 - Z)(𝟙 - Z)`, `-½t(XZ…ZX + YZ…ZY)` of the builders' docstrings — sum to
+    `H = -t Σ_{⟨pq⟩σ} (c†_{pσ} c_{qσ} + h.c.) + u Σ_p n_{p↑} n_{p↓} - μ Σ_{pσ} n_{pσ}` written in the Jordan–Wigner operators of the qubit
+    order of each builder (`hubbardJW`; bonds: `hubbard_bonds_cover`). -/
+theorem hubbard_hamiltonian_is_jordan_wigner (L Lx Ly : Nat) (u t mu : Rat) :
+    hamOfGens (2 * L) (hubbard1dTerms L u t mu) = hubbardJW1d L u t mu ∧
+    hamOfGens (2 * (Lx * Ly)) (hubbard2dTerms Lx Ly u t mu) = hubbardJW2d Lx Ly u t mu ∧
+    hubbardJW1d L u t mu
+      = ((List.range L).map fun j => (((-mu : ℚ) : ℝ) : ℂ) • numF (2 * L) j + (((-mu : ℚ) : ℝ) : ℂ) • numF (2 * L) (L + j)).sum
+        + ((List.range L).map fun j => (((u : ℚ) : ℝ) : ℂ) • (numF (2 * L) j * numF (2 * L) (L + j))).sum
+        + ((fh1dBonds L).map fun b => (((-t : ℚ) : ℝ) : ℂ) • hopF (2 * L) b.1 b.2
+            + (((-t : ℚ) : ℝ) : ℂ) • hopF (2 * L) (L + b.1) (L + b.2)).sum :=
+  ⟨hubbard1d_jw L u t mu, hubbard2d_jw Lx Ly u t mu, rfl⟩
+
+example : hubbard1dTerms 1 (1/2) 1 (1/3) =
+    [([.I, .I], -1/6), ([.Z, .I], 1/6), ([.I, .I], -1/6), ([.I, .Z], 1/6),
+     ([.I, .I], 1/8), ([.Z, .I], -1/8), ([.I, .Z], -1/8), ([.Z, .Z], 1/8)] := by decide +kernel
+example : (hubbard2dTerms 2 1 0 1 0).filter (fun g => g.2 ≠ 0) =
+    [([.X, .Z, .X, .I], -1/2), ([.Y, .Z, .Y, .I], -1/2), ([.I, .X, .Z, .X], -1/2), ([.I, .Y, .Z, .Y], -1/2)] := by
+  decide +kernel
+
+/-- **C07 (the merged tables of the tie are the same operator)** `mergeGens` — what the driver prints for `fhmerged` / `fhterms`, compared
+    with the generators read off the real circuit and with the Pauli decomposition of the independently built Jordan–Wigner matrix —
+    keeps one entry per Pauli string, no zero entries, and the same operator `Σ c·P`. -/
+theorem merged_table_same_operator (L : Nat) (gens : List (List Op × Rat)) :
+    hamOfGens L (mergeGens gens) = hamOfGens L gens ∧ ((mergeGens gens).map Prod.fst).Nodup ∧
+    ∀ e ∈ mergeGens gens, e.2 ≠ 0 :=
+  mergeGens_spec L gens
+
+example : mergeGens [([.Z, .I], 1/2), ([.I, .I], 1/3), ([.Z, .I], -1/2), ([.I, .I], 1/6)] = [([.I, .I], 1/2)] := by decide +kernel
+
+section hubbard_consistent
+open scoped Matrix.Norms.Operator
+
+/-- **C07 (`hubbard1d_step_consistent`, wanted item 3)** one sub-step of `create_1d_fermi_hubbard_circuit(L, u, t, μ, n, dt, ·)` is, as a
+    function of `τ = dt/n`, the curve `U(τ) = Π_k exp(τ·(-i c_k P_k))` over its generators at `τ = 1`; `U(0) = 𝟙` and
+    `dU/dτ(0) = -i·H_JW`, the Jordan–Wigner Fermi–Hubbard Hamiltonian in the layout `↑[j] = j`, `↓[j] = L + j`
+    (through `product_formula_deriv`; every `L` including `L = 1`, where there is no hopping). -/
+theorem hubbard1d_step_consistent (L : Nat) (u t mu : Rat) :
+    (∀ (dt : Rat) (n : Nat), n ≠ 0 →
+      circMat (2 * L) (fh1dSubstep L u t mu dt n) = stepCurve (2 * L) (fh1dGens1 L u t mu) ((dt / n : ℚ) : ℝ)) ∧
+    stepCurve (2 * L) (fh1dGens1 L u t mu) 0 = 1 ∧
+    HasDerivAt (stepCurve (2 * L) (fh1dGens1 L u t mu)) ((-Complex.I) • hubbardJW1d L u t mu) 0 :=
+  fh1d_consistent L u t mu
+
+/-- **C07 (`hubbard2d_step_consistent`)** the same for `create_2d_fermi_hubbard_circuit(Lx, Ly, …)` with the layout of
+    `lookup_qiskit_ordering` and the CNOT-ladder hopping blocks. -/
+theorem hubbard2d_step_consistent (Lx Ly : Nat) (u t mu : Rat) :
+    (∀ (dt : Rat) (n : Nat), n ≠ 0 →
+      circMat (2 * (Lx * Ly)) (fh2dSubstep Lx Ly u t mu dt n)
+        = stepCurve (2 * (Lx * Ly)) (fh2dGens1 Lx Ly u t mu) ((dt / n : ℚ) : ℝ)) ∧
+    stepCurve (2 * (Lx * Ly)) (fh2dGens1 Lx Ly u t mu) 0 = 1 ∧
+    HasDerivAt (stepCurve (2 * (Lx * Ly)) (fh2dGens1 Lx Ly u t mu)) ((-Complex.I) • hubbardJW2d Lx Ly u t mu) 0 :=
+  fh2d_consistent Lx Ly u t mu
+
+end hubbard_consistent
+
+example := hubbard1d_step_consistent 3 (1 / 2) 1 (1 / 3)
+example := hubbard2d_step_consistent 2 2 (1 / 2) 1 (1 / 3)
+
+section hubbard_converges
+open scoped Matrix.Norms.L2Operator
+
+/-- **C07 (`hubbard1d_trotter_converges`)** the circuit `create_1d_fermi_hubbard_circuit(L, u, t, μ, n, dt, timesteps)` — `n·timesteps`
+    sub-steps (`circuits_repeat_step`) of size `dt/n` — is within `T²s²e^{|T|s}/(n·timesteps)` (spectral norm, `T = timesteps·dt`,
+    `s` = sum of the norms of the sub-step generators at `dt/n = 1`) of `exp(-i·T·H_JW)` and converges to it as the number of Trotter
+    sub-steps `n → ∞`. -/
+theorem hubbard1d_trotter_converges (L : Nat) (u t mu dt : Rat) (steps : Nat) (hsteps : steps ≠ 0) :
+    (∀ n : ℕ, n ≠ 0 →
+      ‖circMat (2 * L) (fh1dCircuit L u t mu dt n steps)
+          - exp ((((steps : ℚ) * dt : ℚ) : ℝ) • ((-Complex.I) • hubbardJW1d L u t mu))‖
+        ≤ (((steps : ℚ) * dt : ℚ) : ℝ) ^ 2 * (((fh1dGens1 L u t mu).map (genMat (2 * L))).map norm).sum ^ 2
+            * Real.exp (|(((steps : ℚ) * dt : ℚ) : ℝ)| * (((fh1dGens1 L u t mu).map (genMat (2 * L))).map norm).sum)
+            / ((n * steps : ℕ) : ℝ)) ∧
+    Tendsto (fun n : ℕ => circMat (2 * L) (fh1dCircuit L u t mu dt n steps)) atTop
+      (𝓝 (exp ((((steps : ℚ) * dt : ℚ) : ℝ) • ((-Complex.I) • hubbardJW1d L u t mu)))) :=
+  fh1d_converges L u t mu dt steps hsteps
+
+/-- **C07 (`hubbard2d_trotter_converges`)** the same for `create_2d_fermi_hubbard_circuit(Lx, Ly, u, t, μ, n, dt, timesteps)`. -/
+theorem hubbard2d_trotter_converges (Lx Ly : Nat) (u t mu dt : Rat) (steps : Nat) (hsteps : steps ≠ 0) :
+    (∀ n : ℕ, n ≠ 0 →
+      ‖circMat (2 * (Lx * Ly)) (fh2dCircuit Lx Ly u t mu dt n steps)
+          - exp ((((steps : ℚ) * dt : ℚ) : ℝ) • ((-Complex.I) • hubbardJW2d Lx Ly u t mu))‖
+        ≤ (((steps : ℚ) * dt : ℚ) : ℝ) ^ 2
+            * (((fh2dGens1 Lx Ly u t mu).map (genMat (2 * (Lx * Ly)))).map norm).sum ^ 2
+            * Real.exp (|(((steps : ℚ) * dt : ℚ) : ℝ)|
+                * (((fh2dGens1 Lx Ly u t mu).map (genMat (2 * (Lx * Ly)))).map norm).sum)
+            / ((n * steps : ℕ) : ℝ)) ∧
+    Tendsto (fun n : ℕ => circMat (2 * (Lx * Ly)) (fh2dCircuit Lx Ly u t mu dt n steps)) atTop
+      (𝓝 (exp ((((steps : ℚ) * dt : ℚ) : ℝ) • ((-Complex.I) • hubbardJW2d Lx Ly u t mu)))) :=
+  fh2d_converges Lx Ly u t mu dt steps hsteps
+
+end hubbard_converges
+
+example := hubbard1d_trotter_converges 2 (1 / 2) 1 (1 / 3) (1 / 10) 3 (by decide)
+example := hubbard2d_trotter_converges 2 2 (1 / 2) 1 (1 / 3) (1 / 10) 1 (by decide)
 
 end Yaqs.Trotter
